@@ -29,9 +29,18 @@ Class == IF ~Conclusive THEN "inconclusive"
          ELSE "differ"
 Verdict == [halted |-> ~NoRealHalt, fault |-> ~NoFault, alarm |-> alarm]
 
-Init == /\ RTInit /\ hcase = Progs[prog].inits[inp].hcase /\ h = HInitRec(hcase) /\ phase = "m"
+\* State size is what TLC pays for at every step (fingerprinting walks the whole state): while the machine runs the
+\* source machine does not exist yet (its initial record holds the whole program as a continuation), and when the source
+\* machine starts, the history the Sphinx machine needed for backtracking and for the monitors is dropped - only what the
+\* report reads (out, status, pc, alarm) is kept.
+HIdle == [st |-> "idle"]
+Init == /\ RTInit /\ hcase = Progs[prog].inits[inp].hcase /\ h = HIdle /\ phase = "m"
 Next == \/ phase = "m" /\ ~MDone /\ RTStep /\ UNCHANGED <<hvars, phase>>
-        \/ phase = "m" /\ MDone /\ phase' = "h" /\ UNCHANGED <<mvars, rvars, hvars>>
+        \/ /\ phase = "m" /\ MDone /\ phase' = "h"
+           /\ h' = HInitRec(hcase) /\ UNCHANGED hcase
+           /\ choices' = <<>> /\ trail' = <<>> /\ anchors' = <<>> /\ snaps' = <<>> /\ mem' = <<>>
+           /\ shstack' = <<>> /\ sh' = [sh EXCEPT !.tags = <<>>, !.arrays = <<>>, !.acts = <<>>, !.marks = {}, !.trys = <<>>]
+           /\ UNCHANGED <<prog, inp, pc, out, status, tstep, alarm>>
         \/ phase = "h" /\ ~HDone /\ HStep /\ UNCHANGED <<mvars, rvars, phase>>
         \/ /\ phase = "h" /\ HDone /\ phase' = "done"
            /\ PrintT(ToString(<<"HV", "R", prog, inp, Verdict, status, pc, TLCGet("level"), h.st,
